@@ -590,7 +590,14 @@ impl ViCut {
 			return self.handle_mode_transition(cmd)
 
 		} else if cmd.is_cmd_repeat() {
-			return self.handle_cmd_repeat(cmd)
+			let res = self.handle_cmd_repeat(cmd);
+			if self.mode.report_mode() == ModeReport::Visual {
+				// The repeated change is done with the text: the selection made on the old text is over, like after any operator
+				self.current_buffer().stop_selecting();
+				self.mode = Box::new(ViNormal::new());
+				self.current_buffer().settle_normal_cursor();
+			}
+			return res
 
 		} else if cmd.is_motion_repeat() {
 			return self.handle_motion_repeat(cmd)
